@@ -122,47 +122,55 @@ Definition n_BypassMatcher := (* "BypassMatcher" *) [66;121;112;97;115;115;77;97
 Definition n_NewTimeMatcher := (* "NewTimeMatcher" *) [78;101;119;84;105;109;101;77;97;116;99;104;101;114].
 Definition n_NewPeriodicTimeMatcher := (* "NewPeriodicTimeMatcher" *) [78;101;119;80;101;114;105;111;100;105;99;84;105;109;101;77;97;116;99;104;101;114].
 
-Definition build_matcher (x : ext) (ctor : bytes) (margs : list arg) (foldc : Z) : option matcher :=
+Inductive ckind := KIn | KExact | KPrefix | KSuffix | KContain | KPathElem | KHost | KReg | KIpIn | KIpRange
+                 | KHash | KHasTag | KBypass | KTime | KPeriodic.
+Definition ctor_table : list (bytes * ckind) := [
+  (n_NewInMatcher, KIn); (n_NewExactMatcher, KExact); (n_NewPrefixInMatcher, KPrefix); (n_NewSuffixInMatcher, KSuffix);
+  (n_NewContainMatcher, KContain); (n_NewPathElementPrefixMatcher, KPathElem); (n_NewHostMatcher, KHost);
+  (n_NewRegMatcher, KReg); (n_NewIpInMatcher, KIpIn); (n_NewIPMatcher, KIpRange); (n_NewHashMatcher, KHash);
+  (n_HasTagMatcher, KHasTag); (n_BypassMatcher, KBypass); (n_NewTimeMatcher, KTime); (n_NewPeriodicTimeMatcher, KPeriodic)].
+Definition ctor_of (ctor : bytes) : option ckind := lookup ctor ctor_table.
+
+Definition build_matcher_k (x : ext) (k : ckind) (margs : list arg) (foldc : Z) : option matcher :=
   let a0 := arg_str (nth_arg margs 0) in
   let a1 := arg_str (nth_arg margs 1) in
   let a2 := arg_str (nth_arg margs 2) in
   let fold := ctor_fold foldc margs in
-  if bytes_eqb ctor n_NewInMatcher then Some (MIn (map (fold_up fold) (split_bar a0)) fold)
-  else if bytes_eqb ctor n_NewExactMatcher then Some (MExact (fold_up fold a0) fold)
-  else if bytes_eqb ctor n_NewPrefixInMatcher then Some (MPrefix (map (fold_up fold) (split_bar a0)) fold)
-  else if bytes_eqb ctor n_NewSuffixInMatcher then Some (MSuffix (map (fold_up fold) (split_bar a0)) fold)
-  else if bytes_eqb ctor n_NewContainMatcher then Some (MContain (map (fold_up fold) (split_bar a0)) fold)
-  else if bytes_eqb ctor n_NewPathElementPrefixMatcher then
-    Some (MPathElem (map (fun v => fold_up fold (add_slash v)) (split_bar a0)) fold)
-  else if bytes_eqb ctor n_NewHostMatcher then
+  match k with
+  | KIn => Some (MIn (map (fold_up fold) (split_bar a0)) fold)
+  | KExact => Some (MExact (fold_up fold a0) fold)
+  | KPrefix => Some (MPrefix (map (fold_up fold) (split_bar a0)) fold)
+  | KSuffix => Some (MSuffix (map (fold_up fold) (split_bar a0)) fold)
+  | KContain => Some (MContain (map (fold_up fold) (split_bar a0)) fold)
+  | KPathElem => Some (MPathElem (map (fun v => fold_up fold (add_slash v)) (split_bar a0)) fold)
+  | KHost =>
     let ps := split_bar a0 in
     if existsb (fun p => existsb (Z.eqb 58) p) ps then None else Some (MHost (map to_upper ps))
-  else if bytes_eqb ctor n_NewRegMatcher then
-    if x_re_ok x a0 then Some (MReg a0) else None
-  else if bytes_eqb ctor n_NewIpInMatcher then
+  | KReg => if x_re_ok x a0 then Some (MReg a0) else None
+  | KIpIn =>
     match all_some (map (fun p => option_map fst (x_ip x p)) (split_bar a0)) with
     | Some ips => Some (MIpIn ips)
     | None => None
     end
-  else if bytes_eqb ctor n_NewIPMatcher then
+  | KIpRange =>
     match x_ip x a0, x_ip x a1 with
     | Some (s, v4s), Some (e, v4e) =>
       if negb (Bool.eqb v4s v4e) then None else if bytes_le s e then Some (MIpRange s e) else None
     | _, _ => None
     end
-  else if bytes_eqb ctor n_NewHashMatcher then
+  | KHash =>
     match all_some (map hash_section (split_bar a0)) with
     | Some rs => Some (MHash rs (if foldc =? 2 then arg_bool (last margs (0, [])) else false))
     | None => None
     end
-  else if bytes_eqb ctor n_HasTagMatcher then Some (MHasTag a0)
-  else if bytes_eqb ctor n_BypassMatcher then Some MBypass
-  else if bytes_eqb ctor n_NewTimeMatcher then
+  | KHasTag => Some (MHasTag a0)
+  | KBypass => Some MBypass
+  | KTime =>
     match x_time x a0, x_time x a1 with
     | Some s, Some e => if e <? s then None else Some (MTime s e)
     | _, _ => None
     end
-  else if bytes_eqb ctor n_NewPeriodicTimeMatcher then
+  | KPeriodic =>
     match a2 with
     | _ :: _ => None                                    (* periodStr is not supported *)
     | [] =>
@@ -172,7 +180,9 @@ Definition build_matcher (x : ext) (ctor : bytes) (margs : list arg) (foldc : Z)
       | _, _ => None
       end
     end
-  else None.
+  end.
+Definition build_matcher (x : ext) (ctor : bytes) (margs : list arg) (foldc : Z) : option matcher :=
+  match ctor_of ctor with Some k => build_matcher_k x k margs foldc | None => None end.
 
 (* ------------------------------------------------------------------ fetched values and Match *)
 Inductive fval :=
@@ -279,71 +289,79 @@ Definition n_80 := (* "80" *) [56;48].
 
 Definition opt_ip (o : option bytes) : fval := match o with Some ip => FIp ip | None => FErr end.
 
-(* fetcher type from the wiring table, its key argument (Args[k].Value of the first listed index) *)
-Definition fetch (x : ext) (fetcher : bytes) (key : bytes) (r : request) : fval :=
+Inductive fkind := FHostFetcher | FHostTagFetcher | FProtoFetcher | FMethodFetcher | FPortFetcher | FTagFetcher | FUrlFetcher | FPathFetcher | FQueryKeyInFetcher | FQueryKeyPrefixInFetcher | FQueryValueFetcher | FCookieKeyInFetcher | FCookieValueFetcher | FHeaderKeyInFetcher | FHeaderValueFetcher | FUAFetcher | FResHeaderKeyInFetcher | FResHeaderValueFetcher | FResCodeFetcher | FCIPFetcher | FSIPFetcher | FVIPFetcher | FSniFetcher | FClientCANameFetcher | FContextValueFetcher | FBfeTimeFetcher.
+Definition fetcher_table : list (bytes * fkind) := [
+  (n_HostFetcher, FHostFetcher); (n_HostTagFetcher, FHostTagFetcher); (n_ProtoFetcher, FProtoFetcher); (n_MethodFetcher, FMethodFetcher); (n_PortFetcher, FPortFetcher); (n_TagFetcher, FTagFetcher); (n_UrlFetcher, FUrlFetcher); (n_PathFetcher, FPathFetcher); (n_QueryKeyInFetcher, FQueryKeyInFetcher); (n_QueryKeyPrefixInFetcher, FQueryKeyPrefixInFetcher); (n_QueryValueFetcher, FQueryValueFetcher); (n_CookieKeyInFetcher, FCookieKeyInFetcher); (n_CookieValueFetcher, FCookieValueFetcher); (n_HeaderKeyInFetcher, FHeaderKeyInFetcher); (n_HeaderValueFetcher, FHeaderValueFetcher); (n_UAFetcher, FUAFetcher); (n_ResHeaderKeyInFetcher, FResHeaderKeyInFetcher); (n_ResHeaderValueFetcher, FResHeaderValueFetcher); (n_ResCodeFetcher, FResCodeFetcher); (n_CIPFetcher, FCIPFetcher); (n_SIPFetcher, FSIPFetcher); (n_VIPFetcher, FVIPFetcher); (n_SniFetcher, FSniFetcher); (n_ClientCANameFetcher, FClientCANameFetcher); (n_ContextValueFetcher, FContextValueFetcher); (n_BfeTimeFetcher, FBfeTimeFetcher)].
+Definition fetcher_of (f : bytes) : option fkind := lookup f fetcher_table.
+
+(* fetcher kind, its key argument (Args[k].Value of the first listed index) *)
+Definition fetch_k (x : ext) (fk : fkind) (key : bytes) (r : request) : fval :=
   let keys := split_bar key in
-  if bytes_eqb fetcher n_HostFetcher then FStr (before_colon (r_host r))
-  else if bytes_eqb fetcher n_HostTagFetcher then FStr (r_hosttag r)
-  else if bytes_eqb fetcher n_ProtoFetcher then FStr (if r_secure r then r_sproto r else r_hproto r)
-  else if bytes_eqb fetcher n_MethodFetcher then FStr (r_method r)
-  else if bytes_eqb fetcher n_PortFetcher then
+  match fk with
+  | FHostFetcher => FStr (before_colon (r_host r))
+  | FHostTagFetcher => FStr (r_hosttag r)
+  | FProtoFetcher => FStr (if r_secure r then r_sproto r else r_hproto r)
+  | FMethodFetcher => FStr (r_method r)
+  | FPortFetcher =>
     (* i := strings.Index(host, ":"); if i > 0 { port = host[i+1:] } else "80" *)
     match r_host r with
     | [] => FStr n_80
     | c :: rest => if c =? 58 then FStr n_80
                    else match after_first 58 rest with Some p => FStr p | None => FStr n_80 end
     end
-  else if bytes_eqb fetcher n_TagFetcher then
+  | FTagFetcher =>
     match r_tags r with
     | None => FNil
     | Some tbl => FTags (match aget key tbl with Some l => l | None => [] end)
     end
-  else if bytes_eqb fetcher n_UrlFetcher then FStr (r_uri r)
-  else if bytes_eqb fetcher n_PathFetcher then FStr (r_path r)
-  else if bytes_eqb fetcher n_QueryKeyInFetcher then
+  | FUrlFetcher => FStr (r_uri r)
+  | FPathFetcher => FStr (r_path r)
+  | FQueryKeyInFetcher =>
     FBool (existsb (fun k => match aget k (r_query r) with Some _ => true | None => false end) keys)
-  else if bytes_eqb fetcher n_QueryKeyPrefixInFetcher then
+  | FQueryKeyPrefixInFetcher =>
     FBool (existsb (fun kv => existsb (fun p => is_prefix p (fst kv)) keys) (r_query r))
-  else if bytes_eqb fetcher n_QueryValueFetcher then FStr (hget key (r_query r))
-  else if bytes_eqb fetcher n_CookieKeyInFetcher then
+  | FQueryValueFetcher => FStr (hget key (r_query r))
+  | FCookieKeyInFetcher =>
     FBool (existsb (fun k => match aget k (r_cookies r) with Some _ => true | None => false end) keys)
-  else if bytes_eqb fetcher n_CookieValueFetcher then
+  | FCookieValueFetcher =>
     match aget key (r_cookies r) with Some v => FStr v | None => FErr end
-  else if bytes_eqb fetcher n_HeaderKeyInFetcher then
+  | FHeaderKeyInFetcher =>
     FBool (existsb (fun k => nonempty (header_get k (r_headers r))) keys)
-  else if bytes_eqb fetcher n_HeaderValueFetcher then FStr (header_get key (r_headers r))
-  else if bytes_eqb fetcher n_UAFetcher then FStr (hget n_UserAgent (r_headers r))
-  else if bytes_eqb fetcher n_ResHeaderKeyInFetcher then
+  | FHeaderValueFetcher => FStr (header_get key (r_headers r))
+  | FUAFetcher => FStr (hget n_UserAgent (r_headers r))
+  | FResHeaderKeyInFetcher =>
     match r_resp r with
     | Some (_, h) => FBool (existsb (fun k => nonempty (header_get k h)) keys)
     | None => FErr
     end
-  else if bytes_eqb fetcher n_ResHeaderValueFetcher then
+  | FResHeaderValueFetcher =>
     match r_resp r with Some (_, h) => FStr (header_get key h) | None => FErr end
-  else if bytes_eqb fetcher n_ResCodeFetcher then
+  | FResCodeFetcher =>
     match r_resp r with Some (code, _) => FStr (dec_of_Z code) | None => FErr end
-  else if bytes_eqb fetcher n_CIPFetcher then opt_ip (r_cip r)
-  else if bytes_eqb fetcher n_SIPFetcher then opt_ip (r_sip r)
-  else if bytes_eqb fetcher n_VIPFetcher then opt_ip (r_vip r)
-  else if bytes_eqb fetcher n_SniFetcher then
+  | FCIPFetcher => opt_ip (r_cip r)
+  | FSIPFetcher => opt_ip (r_sip r)
+  | FVIPFetcher => opt_ip (r_vip r)
+  | FSniFetcher =>
     match ok_tls r with
     | Some t => if nonempty (t_sni t) then FStr (t_sni t) else FErr
     | None => FErr
     end
-  else if bytes_eqb fetcher n_ClientCANameFetcher then
+  | FClientCANameFetcher =>
     match ok_tls r with
     | Some t => if t_client_auth t && nonempty (t_ca t) then FStr (t_ca t) else FErr
     | None => FErr
     end
-  else if bytes_eqb fetcher n_ContextValueFetcher then
+  | FContextValueFetcher =>
     match r_context r, key with
     | Some c, _ :: _ => match aget key c with Some (Some s) => FStr s | _ => FNil end
     | _, _ => FErr
     end
-  else if bytes_eqb fetcher n_BfeTimeFetcher then
+  | FBfeTimeFetcher =>
     (* only requests carrying X-Bfe-Debug-Time are modelled (otherwise time.Now()) *)
     match x_time x (hget n_DebugTime (r_headers r)) with Some t => FTime t | None => FErr end
-  else FErr.
+  end.
+Definition fetch (x : ext) (fetcher : bytes) (key : bytes) (r : request) : fval :=
+  match fetcher_of fetcher with Some fk => fetch_k x fk key r | None => FErr end.
 
 (* conditions that are not PrimitiveCond: the "fetcher" column holds the condition type *)
 Definition n_DefaultTrueCond := (* "DefaultTrueCond" *) [68;101;102;97;117;108;116;84;114;117;101;67;111;110;100].
@@ -461,51 +479,69 @@ Definition attr_val (a : attr) (r : request) : option bytes :=
     end
   end.
 
-(* documented string primitives: name -> (attribute from the arguments, index of the pattern argument, test) *)
-Inductive sspec := SS (a : list arg -> attr) (pat_idx : Z) (t : list arg -> test).
-Definition a0 (args : list arg) : bytes := arg_str (nth_arg args 0).
-Definition b1 (args : list arg) : bool := arg_bool (nth_arg args 1).
-Definition b2 (args : list arg) : bool := arg_bool (nth_arg args 2).
-Definition K {A B} (v : A) (_ : B) : A := v.
+(* documented string primitives: name -> (attribute kind (a keyed attribute takes its key from argument 0),
+   index of the pattern argument, test kind, where the case-insensitive flag comes from) *)
+Inductive akind := AKHost | AKHostTag | AKProto | AKMethod | AKPort | AKUrl | AKPath | AKUA
+                 | AKQuery | AKCookie | AKHeader | AKResHeader | AKResCode | AKSni | AKClientCA | AKContext.
+Inductive tkind := TKExact | TKIn | TKPrefix | TKSuffix | TKContain | TKPathElem | TKRegex | TKHash.
+Inductive foldsrc := FsTrue | FsFalse | FsArg (idx : Z).
+Inductive sspec := SS (a : akind) (pat_idx : Z) (t : tkind) (fs : foldsrc).
+
+Definition attr_of (ak : akind) (args : list arg) : attr :=
+  let k := arg_str (nth_arg args 0) in
+  match ak with
+  | AKHost => AHost | AKHostTag => AHostTag | AKProto => AProto | AKMethod => AMethod | AKPort => APort
+  | AKUrl => AUrl | AKPath => APath | AKUA => AUA | AKQuery => AQuery k | AKCookie => ACookie k
+  | AKHeader => AHeader k | AKResHeader => AResHeader k | AKResCode => AResCode | AKSni => ASni
+  | AKClientCA => AClientCA | AKContext => AContext k
+  end.
+Definition fold_of (fs : foldsrc) (args : list arg) : bool :=
+  match fs with FsTrue => true | FsFalse => false | FsArg i => arg_bool (nth_arg args i) end.
+Definition test_of (tk : tkind) (fs : foldsrc) (args : list arg) : test :=
+  let f := fold_of fs args in
+  match tk with
+  | TKExact => TExact f | TKIn => TIn f | TKPrefix => TPrefix f | TKSuffix => TSuffix f | TKContain => TContain f
+  | TKPathElem => TPathElem f | TKRegex => TRegex | TKHash => THash f
+  end.
 
 Definition string_specs : list (bytes * sspec) := [
-  ((* "req_host_in" *) [114;101;113;95;104;111;115;116;95;105;110],                SS (K AHost) 0 (K (TIn true)));
-  ((* "req_host_tag_in" *) [114;101;113;95;104;111;115;116;95;116;97;103;95;105;110],            SS (K AHostTag) 0 (K (TIn true)));
-  ((* "req_host_regmatch" *) [114;101;113;95;104;111;115;116;95;114;101;103;109;97;116;99;104],          SS (K AHost) 0 (K TRegex));
-  ((* "req_host_suffix_in" *) [114;101;113;95;104;111;115;116;95;115;117;102;102;105;120;95;105;110],         SS (K AHost) 0 (K (TSuffix true)));
-  ((* "req_proto_match" *) [114;101;113;95;112;114;111;116;111;95;109;97;116;99;104],            SS (K AProto) 0 (K (TExact true)));
-  ((* "req_method_in" *) [114;101;113;95;109;101;116;104;111;100;95;105;110],              SS (K AMethod) 0 (K (TIn true)));
-  ((* "req_port_in" *) [114;101;113;95;112;111;114;116;95;105;110],                SS (K APort) 0 (K (TIn false)));
-  ((* "req_path_in" *) [114;101;113;95;112;97;116;104;95;105;110],                SS (K APath) 0 (fun a => TIn (b1 a)));
-  ((* "req_path_prefix_in" *) [114;101;113;95;112;97;116;104;95;112;114;101;102;105;120;95;105;110],         SS (K APath) 0 (fun a => TPrefix (b1 a)));
-  ((* "req_path_suffix_in" *) [114;101;113;95;112;97;116;104;95;115;117;102;102;105;120;95;105;110],         SS (K APath) 0 (fun a => TSuffix (b1 a)));
-  ((* "req_path_contain" *) [114;101;113;95;112;97;116;104;95;99;111;110;116;97;105;110],           SS (K APath) 0 (fun a => TContain (b1 a)));
-  ((* "req_path_element_prefix_in" *) [114;101;113;95;112;97;116;104;95;101;108;101;109;101;110;116;95;112;114;101;102;105;120;95;105;110], SS (K APath) 0 (fun a => TPathElem (b1 a)));
-  ((* "req_path_regmatch" *) [114;101;113;95;112;97;116;104;95;114;101;103;109;97;116;99;104],          SS (K APath) 0 (K TRegex));
-  ((* "req_url_regmatch" *) [114;101;113;95;117;114;108;95;114;101;103;109;97;116;99;104],           SS (K AUrl) 0 (K TRegex));
-  ((* "req_ua_regmatch" *) [114;101;113;95;117;97;95;114;101;103;109;97;116;99;104],            SS (K AUA) 0 (K TRegex));
-  ((* "req_query_value_in" *) [114;101;113;95;113;117;101;114;121;95;118;97;108;117;101;95;105;110],         SS (fun a => AQuery (a0 a)) 1 (fun a => TIn (b2 a)));
-  ((* "req_query_value_prefix_in" *) [114;101;113;95;113;117;101;114;121;95;118;97;108;117;101;95;112;114;101;102;105;120;95;105;110],  SS (fun a => AQuery (a0 a)) 1 (fun a => TPrefix (b2 a)));
-  ((* "req_query_value_suffix_in" *) [114;101;113;95;113;117;101;114;121;95;118;97;108;117;101;95;115;117;102;102;105;120;95;105;110],  SS (fun a => AQuery (a0 a)) 1 (fun a => TSuffix (b2 a)));
-  ((* "req_query_value_contain" *) [114;101;113;95;113;117;101;114;121;95;118;97;108;117;101;95;99;111;110;116;97;105;110],    SS (fun a => AQuery (a0 a)) 1 (fun a => TContain (b2 a)));
-  ((* "req_query_value_regmatch" *) [114;101;113;95;113;117;101;114;121;95;118;97;108;117;101;95;114;101;103;109;97;116;99;104],   SS (fun a => AQuery (a0 a)) 1 (K TRegex));
-  ((* "req_query_value_hash_in" *) [114;101;113;95;113;117;101;114;121;95;118;97;108;117;101;95;104;97;115;104;95;105;110],    SS (fun a => AQuery (a0 a)) 1 (fun a => THash (b2 a)));
-  ((* "req_cookie_value_in" *) [114;101;113;95;99;111;111;107;105;101;95;118;97;108;117;101;95;105;110],        SS (fun a => ACookie (a0 a)) 1 (fun a => TIn (b2 a)));
-  ((* "req_cookie_value_prefix_in" *) [114;101;113;95;99;111;111;107;105;101;95;118;97;108;117;101;95;112;114;101;102;105;120;95;105;110], SS (fun a => ACookie (a0 a)) 1 (fun a => TPrefix (b2 a)));
-  ((* "req_cookie_value_suffix_in" *) [114;101;113;95;99;111;111;107;105;101;95;118;97;108;117;101;95;115;117;102;102;105;120;95;105;110], SS (fun a => ACookie (a0 a)) 1 (fun a => TSuffix (b2 a)));
-  ((* "req_cookie_value_contain" *) [114;101;113;95;99;111;111;107;105;101;95;118;97;108;117;101;95;99;111;110;116;97;105;110],   SS (fun a => ACookie (a0 a)) 1 (fun a => TContain (b2 a)));
-  ((* "req_cookie_value_hash_in" *) [114;101;113;95;99;111;111;107;105;101;95;118;97;108;117;101;95;104;97;115;104;95;105;110],   SS (fun a => ACookie (a0 a)) 1 (fun a => THash (b2 a)));
-  ((* "req_header_value_in" *) [114;101;113;95;104;101;97;100;101;114;95;118;97;108;117;101;95;105;110],        SS (fun a => AHeader (a0 a)) 1 (fun a => TIn (b2 a)));
-  ((* "req_header_value_prefix_in" *) [114;101;113;95;104;101;97;100;101;114;95;118;97;108;117;101;95;112;114;101;102;105;120;95;105;110], SS (fun a => AHeader (a0 a)) 1 (fun a => TPrefix (b2 a)));
-  ((* "req_header_value_suffix_in" *) [114;101;113;95;104;101;97;100;101;114;95;118;97;108;117;101;95;115;117;102;102;105;120;95;105;110], SS (fun a => AHeader (a0 a)) 1 (fun a => TSuffix (b2 a)));
-  ((* "req_header_value_contain" *) [114;101;113;95;104;101;97;100;101;114;95;118;97;108;117;101;95;99;111;110;116;97;105;110],   SS (fun a => AHeader (a0 a)) 1 (fun a => TContain (b2 a)));
-  ((* "req_header_value_regmatch" *) [114;101;113;95;104;101;97;100;101;114;95;118;97;108;117;101;95;114;101;103;109;97;116;99;104],  SS (fun a => AHeader (a0 a)) 1 (K TRegex));
-  ((* "req_header_value_hash_in" *) [114;101;113;95;104;101;97;100;101;114;95;118;97;108;117;101;95;104;97;115;104;95;105;110],   SS (fun a => AHeader (a0 a)) 1 (fun a => THash (b2 a)));
-  ((* "res_code_in" *) [114;101;115;95;99;111;100;101;95;105;110],                SS (K AResCode) 0 (K (TIn false)));
-  ((* "res_header_value_in" *) [114;101;115;95;104;101;97;100;101;114;95;118;97;108;117;101;95;105;110],        SS (fun a => AResHeader (a0 a)) 1 (fun a => TIn (b2 a)));
-  ((* "ses_tls_sni_in" *) [115;101;115;95;116;108;115;95;115;110;105;95;105;110],             SS (K ASni) 0 (K (TIn true)));
-  ((* "ses_tls_client_ca_in" *) [115;101;115;95;116;108;115;95;99;108;105;101;110;116;95;99;97;95;105;110],       SS (K AClientCA) 0 (K (TIn false)));
-  ((* "req_context_value_in" *) [114;101;113;95;99;111;110;116;101;120;116;95;118;97;108;117;101;95;105;110],       SS (fun a => AContext (a0 a)) 1 (fun a => TIn (b2 a)))
+  ((* "req_host_in" *) [114;101;113;95;104;111;115;116;95;105;110], SS AKHost 0 TKIn FsTrue);
+  ((* "req_host_tag_in" *) [114;101;113;95;104;111;115;116;95;116;97;103;95;105;110], SS AKHostTag 0 TKIn FsTrue);
+  ((* "req_host_regmatch" *) [114;101;113;95;104;111;115;116;95;114;101;103;109;97;116;99;104], SS AKHost 0 TKRegex FsFalse);
+  ((* "req_host_suffix_in" *) [114;101;113;95;104;111;115;116;95;115;117;102;102;105;120;95;105;110], SS AKHost 0 TKSuffix FsTrue);
+  ((* "req_proto_match" *) [114;101;113;95;112;114;111;116;111;95;109;97;116;99;104], SS AKProto 0 TKExact FsTrue);
+  ((* "req_method_in" *) [114;101;113;95;109;101;116;104;111;100;95;105;110], SS AKMethod 0 TKIn FsTrue);
+  ((* "req_port_in" *) [114;101;113;95;112;111;114;116;95;105;110], SS AKPort 0 TKIn FsFalse);
+  ((* "req_path_in" *) [114;101;113;95;112;97;116;104;95;105;110], SS AKPath 0 TKIn (FsArg 1));
+  ((* "req_path_prefix_in" *) [114;101;113;95;112;97;116;104;95;112;114;101;102;105;120;95;105;110], SS AKPath 0 TKPrefix (FsArg 1));
+  ((* "req_path_suffix_in" *) [114;101;113;95;112;97;116;104;95;115;117;102;102;105;120;95;105;110], SS AKPath 0 TKSuffix (FsArg 1));
+  ((* "req_path_contain" *) [114;101;113;95;112;97;116;104;95;99;111;110;116;97;105;110], SS AKPath 0 TKContain (FsArg 1));
+  ((* "req_path_element_prefix_in" *) [114;101;113;95;112;97;116;104;95;101;108;101;109;101;110;116;95;112;114;101;102;105;120;95;105;110], SS AKPath 0 TKPathElem (FsArg 1));
+  ((* "req_path_regmatch" *) [114;101;113;95;112;97;116;104;95;114;101;103;109;97;116;99;104], SS AKPath 0 TKRegex FsFalse);
+  ((* "req_url_regmatch" *) [114;101;113;95;117;114;108;95;114;101;103;109;97;116;99;104], SS AKUrl 0 TKRegex FsFalse);
+  ((* "req_ua_regmatch" *) [114;101;113;95;117;97;95;114;101;103;109;97;116;99;104], SS AKUA 0 TKRegex FsFalse);
+  ((* "req_query_value_in" *) [114;101;113;95;113;117;101;114;121;95;118;97;108;117;101;95;105;110], SS AKQuery 1 TKIn (FsArg 2));
+  ((* "req_query_value_prefix_in" *) [114;101;113;95;113;117;101;114;121;95;118;97;108;117;101;95;112;114;101;102;105;120;95;105;110], SS AKQuery 1 TKPrefix (FsArg 2));
+  ((* "req_query_value_suffix_in" *) [114;101;113;95;113;117;101;114;121;95;118;97;108;117;101;95;115;117;102;102;105;120;95;105;110], SS AKQuery 1 TKSuffix (FsArg 2));
+  ((* "req_query_value_contain" *) [114;101;113;95;113;117;101;114;121;95;118;97;108;117;101;95;99;111;110;116;97;105;110], SS AKQuery 1 TKContain (FsArg 2));
+  ((* "req_query_value_regmatch" *) [114;101;113;95;113;117;101;114;121;95;118;97;108;117;101;95;114;101;103;109;97;116;99;104], SS AKQuery 1 TKRegex FsFalse);
+  ((* "req_query_value_hash_in" *) [114;101;113;95;113;117;101;114;121;95;118;97;108;117;101;95;104;97;115;104;95;105;110], SS AKQuery 1 TKHash (FsArg 2));
+  ((* "req_cookie_value_in" *) [114;101;113;95;99;111;111;107;105;101;95;118;97;108;117;101;95;105;110], SS AKCookie 1 TKIn (FsArg 2));
+  ((* "req_cookie_value_prefix_in" *) [114;101;113;95;99;111;111;107;105;101;95;118;97;108;117;101;95;112;114;101;102;105;120;95;105;110], SS AKCookie 1 TKPrefix (FsArg 2));
+  ((* "req_cookie_value_suffix_in" *) [114;101;113;95;99;111;111;107;105;101;95;118;97;108;117;101;95;115;117;102;102;105;120;95;105;110], SS AKCookie 1 TKSuffix (FsArg 2));
+  ((* "req_cookie_value_contain" *) [114;101;113;95;99;111;111;107;105;101;95;118;97;108;117;101;95;99;111;110;116;97;105;110], SS AKCookie 1 TKContain (FsArg 2));
+  ((* "req_cookie_value_hash_in" *) [114;101;113;95;99;111;111;107;105;101;95;118;97;108;117;101;95;104;97;115;104;95;105;110], SS AKCookie 1 TKHash (FsArg 2));
+  ((* "req_header_value_in" *) [114;101;113;95;104;101;97;100;101;114;95;118;97;108;117;101;95;105;110], SS AKHeader 1 TKIn (FsArg 2));
+  ((* "req_header_value_prefix_in" *) [114;101;113;95;104;101;97;100;101;114;95;118;97;108;117;101;95;112;114;101;102;105;120;95;105;110], SS AKHeader 1 TKPrefix (FsArg 2));
+  ((* "req_header_value_suffix_in" *) [114;101;113;95;104;101;97;100;101;114;95;118;97;108;117;101;95;115;117;102;102;105;120;95;105;110], SS AKHeader 1 TKSuffix (FsArg 2));
+  ((* "req_header_value_contain" *) [114;101;113;95;104;101;97;100;101;114;95;118;97;108;117;101;95;99;111;110;116;97;105;110], SS AKHeader 1 TKContain (FsArg 2));
+  ((* "req_header_value_regmatch" *) [114;101;113;95;104;101;97;100;101;114;95;118;97;108;117;101;95;114;101;103;109;97;116;99;104], SS AKHeader 1 TKRegex FsFalse);
+  ((* "req_header_value_hash_in" *) [114;101;113;95;104;101;97;100;101;114;95;118;97;108;117;101;95;104;97;115;104;95;105;110], SS AKHeader 1 TKHash (FsArg 2));
+  ((* "res_code_in" *) [114;101;115;95;99;111;100;101;95;105;110], SS AKResCode 0 TKIn FsFalse);
+  ((* "res_header_value_in" *) [114;101;115;95;104;101;97;100;101;114;95;118;97;108;117;101;95;105;110], SS AKResHeader 1 TKIn (FsArg 2));
+  ((* "ses_tls_sni_in" *) [115;101;115;95;116;108;115;95;115;110;105;95;105;110], SS AKSni 0 TKIn FsTrue);
+  ((* "ses_tls_client_ca_in" *) [115;101;115;95;116;108;115;95;99;108;105;101;110;116;95;99;97;95;105;110], SS AKClientCA 0 TKIn FsFalse);
+  ((* "req_context_value_in" *) [114;101;113;95;99;111;110;116;101;120;116;95;118;97;108;117;101;95;105;110], SS AKContext 1 TKIn (FsArg 2))
 ].
 
 (* the other documented primitives *)
@@ -578,9 +614,9 @@ Definition spec_other (x : ext) (name : bytes) (args : list arg) (r : request) :
    a missing attribute makes the primitive false *)
 Definition spec_match (x : ext) (name : bytes) (args : list arg) (r : request) : option bool :=
   match lookup name string_specs with
-  | Some (SS a pi t) =>
-    Some (match attr_val (a args) r with
-          | Some v => spec_test x (t args) (arg_str (nth_arg args pi)) v
+  | Some (SS a pi t fs) =>
+    Some (match attr_val (attr_of a args) r with
+          | Some v => spec_test x (test_of t fs args) (arg_str (nth_arg args pi)) v
           | None => false
           end)
   | None => spec_other x name args r
@@ -589,7 +625,7 @@ Definition spec_match (x : ext) (name : bytes) (args : list arg) (r : request) :
 (* the attribute of a string primitive is missing on r *)
 Definition attr_missing (name : bytes) (args : list arg) (r : request) : bool :=
   match lookup name string_specs with
-  | Some (SS a _ _) => match attr_val (a args) r with None => true | Some _ => false end
+  | Some (SS a _ _ _) => match attr_val (attr_of a args) r with None => true | Some _ => false end
   | None => false
   end.
 
